@@ -42,6 +42,8 @@ func calibrate() {
 		return
 	}
 	calib = map[string]string{}
+	z0, z1 := h.RunFile(model.KwPrint+" 0;", h.Opts{}), h.RunFile(model.KwPrint+" -0;", h.Opts{})
+	model.StrictZero = z0.Status == 0 && z1.Status == 0 && z0.Stdout != z1.Stdout
 	for k, p := range calibProgs {
 		o := h.RunFile(p[0], h.Opts{})
 		if o.Panic == "" && !o.Diverged && o.Stderr != "" {
